@@ -97,7 +97,7 @@ CHECKS.update({
         text="Theorems restore_pairs (history rebuilt from a checkpoint has exactly the stored pairs as consecutive differences, any additive group), "
              "restore_keeps_most_recent (with memory maxcor' the most recent min(m, maxcor') pairs are kept, in order, matrices rebuilt from them), "
              "restore_roundtrip (the history rebuilt from the pairs of a result whose x ends its stored history IS that history: the restart holds the "
-             "memory of the uninterrupted run), restart_noiter_same_pairs (run level, ordered field: a restart with maxiter <= checkpoint.nit, no scaler, update or target, returns the checkpoint's most recent min(m, maxcor) pairs, its nit and the clipped start — by unfolding the whole driver model on the checkpoint path); bit-equality is not a theorem (the reconstruction rounds): restarts at every iteration k of real runs, with equal "
+             "memory of the uninterrupted run), restart_noiter_same_pairs (run level, ordered field: a restart with maxiter <= checkpoint.nit, no scaler, update or target, returns the checkpoint's most recent min(m, maxcor) pairs, its nit and the clipped start — by unfolding the whole driver model on the checkpoint path), restart_state / restart_continues / restart_same_result (Props/C06Sim, ordered field: the loop state a restart rebuilds from a checkpoint IS the state the checkpoint is a snapshot of, up to the ghost logs and the wrapper's cache — the history rebuilt from the pairs is the history — and from there the loop of the restart computes what the loop of the uninterrupted run computes, for any number of further iterations: a simulation through the whole driver; hypotheses: the point ends its stored history with an accepted pair (else K4), no scaler (else K1), no update function or target, callbacks that let the run go on, the first line search of the continuation evaluates at a point other than the current one); bit-equality is not a theorem (the reconstruction rounds): restarts at every iteration k of real runs, with equal "
              "and reduced maxcor, are replayed through the model bit for bit and the next iterate / pairs compared with the uninterrupted run. Known "
              "finding K4 (restart from a result whose x is not the end of its stored history) reported as KNOWN-FINDING.",
         note=SHELL_NOTE, technique="Lean 4 proof (list induction over an additive group) + bit-exact replay of restarts + split-run differential against the uninterrupted run",
@@ -106,7 +106,7 @@ CHECKS.update({
         text="Theorems maxiter_only_in_guard / callback_state_eq_run_k (the k-th callback state equals the result of the same run with maxiter = k, "
              "field by field except message/status/success — by a simulation between the two runs of the model), snapshot_is_value (recorded states are "
              "never rewritten: the list only grows at its end), callback_false_transparent (a callback that always answers go-on does not change the "
-             "result: non-interference proof over the whole driver, the logs are ghost); tied by bit-exact replay; on real runs every callback state is compared with the run re-executed with maxiter = state.nit "
+             "result: non-interference proof over the whole driver, the logs are ghost), and for the crash-checkpoint clause C06 restart_continues / restart_same_result (restarted from the snapshot, the loop continues as the uninterrupted run does — exact arithmetic, see C06); tied by bit-exact replay; on real runs every callback state is compared with the run re-executed with maxiter = state.nit "
              "and frozen copies are compared after the run.",
         note=SHELL_NOTE, technique="Lean 4 proof (simulation between runs with different budgets, induction on fuel) + bit-exact replay + re-run differential",
         design_ref="DESIGN.md §4 C07"),
